@@ -106,6 +106,11 @@ Definition holder (pc : ppc) : bool :=
   match pc with PHoldW | PSnapshot _ | PActivated _ => true | _ => false end.
 Definition is_active_pc (pc : ppc) : bool :=
   match pc with PActivated _ | PDone _ => true | _ => false end.
+(* has been on r.plugins as a live instance at some time *)
+Definition ever_active (pc : ppc) : bool :=
+  match pc with PActivated _ | PDone _ | PClosed _ => true | _ => false end.
+Lemma active_ever pc : is_active_pc pc = true -> ever_active pc = true.
+Proof. destruct pc; cbn; congruence. Qed.
 Definition inflight (gc : gpc) : option cid :=
   match gc with GDispatching c _ _ | GDispatched c _ => Some c | _ => None end.
 
@@ -125,7 +130,8 @@ Record Inv (s : state) : Prop := {
   i_snap : forall p pc c, alookup p (plugs s) = Some pc -> In c (snap_of pc) -> In c (store s) /\ ~ In (p, c) (recv s);
   i_miss : forall p pc c, In p (active s) -> alookup p (plugs s) = Some pc -> In c (store s) ->
             ~ In c (snap_of pc) -> In (p, c) (recv s);
-  i_recv : forall p c, In (p, c) (recv s) -> In p (active s) /\ In c (used s);
+  i_recv : forall p c, In (p, c) (recv s) ->
+            (exists pc, alookup p (plugs s) = Some pc /\ ever_active pc = true) /\ In c (used s);
   i_rnodup : NoDup (recv s);
   i_used : forall c, In c (store s) -> In c (used s);
   i_ing : forall g c to rem, alookup g (gors s) = Some (GDispatching c to rem) ->
@@ -133,12 +139,13 @@ Record Inv (s : state) : Prop := {
             (forall p, In p rem -> In p (active s) /\ ~ In (p, c) (recv s)) /\
             (forall p, In p (active s) -> In p rem \/ In (p, c) (recv s));
   i_ed : forall g c to, alookup g (gors s) = Some (GDispatched c to) ->
-            to = active s /\ In c (used s) /\ ~ In c (store s) /\ (forall p, In p (active s) -> In (p, c) (recv s));
+            incl (active s) to /\ In c (used s) /\ ~ In c (store s) /\ (forall p, In p (active s) -> In (p, c) (recv s));
   i_st : forall g c, alookup g (gors s) = Some (GStored c) -> In c (store s);
   i_uniq : forall g g' gc gc' c, alookup g (gors s) = Some gc -> alookup g' (gors s) = Some gc' ->
             inflight gc = Some c -> inflight gc' = Some c -> g = g';
   i_wrh : writer s = true -> exists p pc, alookup p (plugs s) = Some pc /\ holder pc = true;
-  i_pnodup : NoDup (map fst (plugs s))
+  i_pnodup : NoDup (map fst (plugs s));
+  i_zomb : forall z, In z (zombies s) -> exists ids, alookup z (plugs s) = Some (PClosed ids)
 }.
 
 Lemma inv_init : Inv init.
@@ -149,7 +156,7 @@ Proof.
 Qed.
 
 
-Ltac fields := cbn [readers writer mutex store active plugs gors recv used set_plug set_gor set_writer set_mutex] in *.
+Ltac fields := cbn [readers writer mutex store active plugs gors recv used zombies set_plug set_gor set_writer set_mutex set_zombies] in *.
 
 Ltac open_step H :=
   unfold step in H;
@@ -174,7 +181,7 @@ Qed.
 (* ---------------- plugin steps ---------------- *)
 Lemma step_inv_parrive s p s' : Inv s -> step s (APArrive p) = Some s' -> Inv s'.
 Proof.
-  intros I H. open_step H. destruct I as [Ireaders Ignodup Iwr Inowr Ionewr Imu1 Imu2 Isnapstore Iactive Ianodup Isnap Imiss Irecv Irnodup Iused Iing Ied Ist Iuniq Iwrh Ipnodup]. constructor; fields; try assumption.
+  intros I H. open_step H. destruct I as [Ireaders Ignodup Iwr Inowr Ionewr Imu1 Imu2 Isnapstore Iactive Ianodup Isnap Imiss Irecv Irnodup Iused Iing Ied Ist Iuniq Iwrh Ipnodup Izomb]. constructor; fields; try assumption.
   - intros W q qc Hq. apply alookup_aset_inv in Hq. destruct Hq as [[-> ->]|[Hne Hq]]; [reflexivity|eauto].
   - intros a b ac bc Ha Hb Hha Hhb. apply alookup_aset_inv in Ha. apply alookup_aset_inv in Hb.
     destruct Ha as [[-> ->]|[Hna Ha]]; [discriminate|]. destruct Hb as [[-> ->]|[Hnb Hb]]; [discriminate|]. eauto.
@@ -185,9 +192,13 @@ Proof.
   - intros q qc c Hq Hc. apply alookup_aset_inv in Hq. destruct Hq as [[-> ->]|[Hne Hq]]; [contradiction|eauto].
   - intros q qc c Hin Hq. apply alookup_aset_inv in Hq. destruct Hq as [[-> ->]|[Hne Hq]]; [|eauto].
     apply Iactive in Hin. destruct Hin as [pc [Hp _]]. congruence.
+  - intros q c Hr. destruct (Irecv q c Hr) as [[pc [Hq He]] Hu]. split; [|exact Hu]. exists pc. split; [|exact He].
+    rewrite alookup_aset_other; [exact Hq|]. intros ->. congruence.
   - intros W. destruct (Iwrh W) as (q & qc & Hq & Hh). exists q, qc. split; [|exact Hh].
     rewrite alookup_aset_other; [exact Hq|]. intros ->. congruence.
   - rewrite aset_keys_absent by assumption. apply NoDup_snoc; [assumption|]. apply alookup_None_notin. assumption.
+  - intros z Hz. destruct (Izomb z Hz) as [ids Hq]. exists ids.
+    rewrite alookup_aset_other; [exact Hq|]. intros ->. congruence.
 Qed.
 
 (* generic: a plugin changes its program counter, nothing else but the writer flag changes *)
@@ -195,7 +206,7 @@ Lemma plug_move s p old new w :
   Inv s ->
   alookup p (plugs s) = Some old ->
   is_active_pc new = is_active_pc old ->
-  (forall c, In c (snap_of new) -> In c (snap_of old) \/ (is_active_pc old = false /\ In c (store s))) ->
+  (forall c, In c (snap_of new) -> In c (snap_of old) \/ (ever_active old = false /\ In c (store s))) ->
   (forall c, is_active_pc old = true -> In c (snap_of old) -> In c (snap_of new)) ->
   (forall ids, new = PSnapshot ids \/ new = PActivated ids -> ids = store s) ->
   (* lock discipline *)
@@ -204,9 +215,11 @@ Lemma plug_move s p old new w :
   (w = false -> holder new = false /\ (holder old = true \/ writer s = false)) ->
   (holder new = true -> holder old = true \/ writer s = false) ->
   (w = true -> holder new = true) ->
+  ever_active new = ever_active old ->
+  (forall ids, old <> PClosed ids) ->
   Inv (set_writer (set_plug s p new) w).
 Proof.
-  intros I Hp Hact Hsnap1 Hsnap2 Hss Hw1 Hw2 Hw3 Hw4 Hw5.
+  intros I Hp Hact Hsnap1 Hsnap2 Hss Hw1 Hw2 Hw3 Hw4 Hw5 Hev Hncl.
   assert (Hold : forall q qc, alookup q (aset p new (plugs s)) = Some qc ->
                  (q = p /\ qc = new) \/ (q <> p /\ alookup q (plugs s) = Some qc)).
   { intros q qc. apply alookup_aset_inv. }
@@ -216,7 +229,7 @@ Proof.
     - destruct (holder qc) eqn:Hh; [|reflexivity]. exfalso. apply Hne.
       exact (i_onewr s I q p qc old Hq Hp Hh Ho).
     - exact (i_nowr s I W q qc Hq). }
-  destruct I as [Ireaders Ignodup Iwr Inowr Ionewr Imu1 Imu2 Isnapstore Iactive Ianodup Isnap Imiss Irecv Irnodup Iused Iing Ied Ist Iuniq Iwrh Ipnodup]. constructor; fields; try assumption.
+  destruct I as [Ireaders Ignodup Iwr Inowr Ionewr Imu1 Imu2 Isnapstore Iactive Ianodup Isnap Imiss Irecv Irnodup Iused Iing Ied Ist Iuniq Iwrh Ipnodup Izomb]. constructor; fields; try assumption.
   - intros W q qc Hq. destruct (Hold q qc Hq) as [[-> ->]|[Hne Hq']]; [apply Hw3; exact W|].
     apply (Hnohold (proj2 (Hw3 W)) q qc Hne Hq').
   - intros a b ac bc Ha Hb Hha Hhb.
@@ -236,13 +249,18 @@ Proof.
     + destruct (Hold q qc Hq) as [[-> ->]|[Hne Hq']]; [|eauto]. exists old. split; [exact Hp|congruence].
   - intros q qc c Hq Hc. destruct (Hold q qc Hq) as [[-> ->]|[Hne Hq']]; [|eauto].
     destruct (Hsnap1 c Hc) as [Hc'|[Hna Hc']]; [eauto|]. split; [exact Hc'|].
-    intros Hr. apply Irecv in Hr. destruct Hr as [Hr _]. apply Iactive in Hr.
-    destruct Hr as [pc [Hp' Ha]]. congruence.
+    intros Hr. apply Irecv in Hr. destruct Hr as [[pc [Hp' Ha]] _]. congruence.
   - intros q qc c Hin Hq Hc Hnc. destruct (Hold q qc Hq) as [[-> ->]|[Hne Hq']]; [|eauto].
     apply (Imiss p old c Hin Hp Hc). intros Hc'. apply Hnc. apply Hsnap2; [|exact Hc'].
     apply Iactive in Hin. destruct Hin as [pc [Hp' Ha]]. congruence.
+  - intros q c Hr. destruct (Irecv q c Hr) as [[pc [Hq He]] Hu]. split; [|exact Hu].
+    destruct (String.eqb_spec q p) as [->|Hne].
+    + exists new. rewrite alookup_aset_same. split; [reflexivity|]. rewrite Hev. congruence.
+    + exists pc. rewrite alookup_aset_other by assumption. auto.
   - intros W. exists p, new. rewrite alookup_aset_same. auto.
   - rewrite aset_keys_present by congruence. assumption.
+  - intros z Hz. destruct (Izomb z Hz) as [ids Hq]. exists ids.
+    rewrite alookup_aset_other; [exact Hq|]. intros ->. rewrite Hp in Hq. inversion Hq. eapply Hncl; eauto.
 Qed.
 
 Lemma writer_of_holder s p pc : Inv s -> alookup p (plugs s) = Some pc -> holder pc = true -> writer s = true.
@@ -267,7 +285,7 @@ Proof.
   match goal with E : alookup p _ = Some PHoldW |- _ => rename E into Hp end.
   pose proof (writer_of_holder s p _ I Hp eq_refl) as W.
   assert (G : Inv (set_writer (set_plug s p (PSnapshot (store s))) (writer s))).
-  { eapply plug_move; eauto; cbn; try tauto.
+  { eapply plug_move; eauto; cbn; try tauto; try (intros ids0 H0; discriminate H0).
     - intros ids [H|H]; congruence.
     - apply (i_wr s I). }
   destruct s. exact G.
@@ -319,7 +337,7 @@ Proof.
   assert (Hold : forall q qc, alookup q (aset p (PActivated ids) (plugs s)) = Some qc ->
                  (q = p /\ qc = PActivated ids) \/ (q <> p /\ alookup q (plugs s) = Some qc)).
   { intros q qc. apply alookup_aset_inv. }
-  destruct I as [Ireaders Ignodup Iwr Inowr Ionewr Imu1 Imu2 Isnapstore Iactive Ianodup Isnap Imiss Irecv Irnodup Iused Iing Ied Ist Iuniq Iwrh Ipnodup]. constructor; fields; try assumption.
+  destruct I as [Ireaders Ignodup Iwr Inowr Ionewr Imu1 Imu2 Isnapstore Iactive Ianodup Isnap Imiss Irecv Irnodup Iused Iing Ied Ist Iuniq Iwrh Ipnodup Izomb]. constructor; fields; try assumption.
   - intros W'. congruence.
   - intros a b ac bc Ha Hb Hha Hhb.
     destruct (Hold a ac Ha) as [[-> ->]|[Hna Ha']]; destruct (Hold b bc Hb) as [[-> ->]|[Hnb Hb']]; try reflexivity.
@@ -345,11 +363,15 @@ Proof.
   - intros q qc c Hin Hq Hc Hnc. destruct (Hold q qc Hq) as [[-> ->]|[Hne Hq']].
     + exfalso. apply Hnc. cbn [snap_of]. rewrite Hids. exact Hc.
     + apply in_app_iff in Hin. destruct Hin as [Hin|[->|[]]]; [eauto|congruence].
-  - intros q c Hr. destruct (Irecv q c Hr) as [H1 H2]. split; [apply in_app_iff; left; exact H1|exact H2].
+  - intros q c Hr. destruct (Irecv q c Hr) as [[pc [Hq He]] H2]. split; [|exact H2].
+    destruct (String.eqb_spec q p) as [->|Hne].
+    + exists (PActivated ids). rewrite alookup_aset_same. auto.
+    + exists pc. rewrite alookup_aset_other by assumption. auto.
   - intros g c to rem Hg. rewrite G in Hg. discriminate.
   - intros g c to Hg. rewrite G in Hg. discriminate.
   - intros _. exists p, (PActivated ids). rewrite alookup_aset_same. auto.
   - rewrite aset_keys_present by congruence. assumption.
+  - intros z [].
 Qed.
 
 (* ---------------- goroutine steps ---------------- *)
@@ -360,7 +382,7 @@ Proof.
   match goal with E : writer s = false |- _ => rename E into W end.
   assert (Hold : forall k v, alookup k ((g, GHoldR) :: gors s) = Some v -> (k = g /\ v = GHoldR) \/ (k <> g /\ alookup k (gors s) = Some v)).
   { intros k v. apply alookup_cons_inv. }
-  destruct I as [Ireaders Ignodup Iwr Inowr Ionewr Imu1 Imu2 Isnapstore Iactive Ianodup Isnap Imiss Irecv Irnodup Iused Iing Ied Ist Iuniq Iwrh Ipnodup]. constructor; fields; try assumption.
+  destruct I as [Ireaders Ignodup Iwr Inowr Ionewr Imu1 Imu2 Isnapstore Iactive Ianodup Isnap Imiss Irecv Irnodup Iused Iing Ied Ist Iuniq Iwrh Ipnodup Izomb]. constructor; fields; try assumption.
   - cbn [length]. congruence.
   - cbn [map fst]. constructor; [|assumption]. apply alookup_None_notin. exact Hg.
   - intros W'. congruence.
@@ -401,7 +423,7 @@ Proof.
   assert (Hold : forall k v, alookup k (aset g (GDispatching c (active s) (active s)) (gors s)) = Some v ->
                  (k = g /\ v = GDispatching c (active s) (active s)) \/ (k <> g /\ alookup k (gors s) = Some v)).
   { intros k v. apply alookup_aset_inv. }
-  destruct I as [Ireaders Ignodup Iwr Inowr Ionewr Imu1 Imu2 Isnapstore Iactive Ianodup Isnap Imiss Irecv Irnodup Iused Iing Ied Ist Iuniq Iwrh Ipnodup]. constructor; fields; try assumption.
+  destruct I as [Ireaders Ignodup Iwr Inowr Ionewr Imu1 Imu2 Isnapstore Iactive Ianodup Isnap Imiss Irecv Irnodup Iused Iing Ied Ist Iuniq Iwrh Ipnodup Izomb]. constructor; fields; try assumption.
   - rewrite L. exact Ireaders.
   - rewrite K. assumption.
   - intros W'. congruence.
@@ -427,7 +449,7 @@ Proof.
     + eauto.
 Qed.
 
-Ltac dI I := destruct I as [Ireaders Ignodup Iwr Inowr Ionewr Imu1 Imu2 Isnapstore Iactive Ianodup Isnap Imiss Irecv Irnodup Iused Iing Ied Ist Iuniq Iwrh Ipnodup].
+Ltac dI I := destruct I as [Ireaders Ignodup Iwr Inowr Ionewr Imu1 Imu2 Isnapstore Iactive Ianodup Isnap Imiss Irecv Irnodup Iused Iing Ied Ist Iuniq Iwrh Ipnodup Izomb].
 
 Lemma step_inv_gdeliver s g p s' : Inv s -> step s (AGDeliver g p) = Some s' -> Inv s'.
 Proof.
@@ -451,7 +473,8 @@ Proof.
   - intros q qc c0 Hq Hc0. destruct (Isnap q qc c0 Hq Hc0) as [S1 S2]. split; [exact S1|].
     intros [E|Hr]; [|contradiction]. inversion E; subst. contradiction.
   - intros q qc c0 Hin Hq Hc0 Hn. right. eauto.
-  - intros q c0 [E|Hr]; [|eauto]. inversion E; subst. split; [apply B5; exact Hp|exact B2].
+  - intros q c0 [E|Hr]; [|eauto]. inversion E; subst. split; [|exact B2].
+    destruct (proj1 (Iactive _) (proj1 (B5 _ Hp))) as [pc [Hq Ha]]. exists pc. split; [exact Hq|apply active_ever; exact Ha].
   - constructor; [|assumption]. apply B5. exact Hp.
   - intros g0 c0 to0 rem0 H0. destruct (Hold _ _ H0) as [[-> E]|[Hne H0']].
     + inversion E; subst. split; [reflexivity|]. split; [exact B2|]. split; [exact B3|].
@@ -494,13 +517,14 @@ Proof.
     exfalso. apply Hne. pose proof (Imu2 _ _ _ _ H0') as Hm'. congruence.
   - intros g0 c0 to0 rem0 H0. destruct (Hold _ _ H0) as [[-> E]|[Hne H0']]; [discriminate|eauto].
   - intros g0 c0 to0 H0. destruct (Hold _ _ H0) as [[-> E]|[Hne H0']]; [|eauto].
-    inversion E; subst. repeat split; auto. intros q Hq. destruct (B6 q Hq) as [[]|Hr]. exact Hr.
+    inversion E; subst. split; [apply incl_refl|]. repeat split; auto. intros q Hq. destruct (B6 q Hq) as [[]|Hr]. exact Hr.
   - intros g0 c0 H0. destruct (Hold _ _ H0) as [[-> E]|[Hne H0']]; [discriminate|eauto].
   - intros g1 g2 gc1 gc2 c0 H1 H2 F1 F2.
     destruct (Hold _ _ H1) as [[-> ->]|[Hn1 H1']]; destruct (Hold _ _ H2) as [[-> ->]|[Hn2 H2']]; try reflexivity.
     + exact (Iuniq g g2 _ _ c0 Hg H2' F1 F2).
     + exact (Iuniq g1 g _ _ c0 H1' Hg F1 F2).
     + eauto.
+  - intros z [].
 Qed.
 
 Lemma step_inv_gstore s g s' : Inv s -> step s (AGStore g) = Some s' -> Inv s'.
@@ -558,6 +582,46 @@ Proof.
   - intros g1 g2 gc1 gc2 c0 H1 H2 F1 F2. destruct (Hold _ _ H1) as [Hn1 H1']. destruct (Hold _ _ H2) as [Hn2 H2']. eauto.
 Qed.
 
+(* a registered instance loses its connection: it leaves the live list and stays listed as a zombie *)
+Lemma step_inv_pclose s p s' : Inv s -> step s (APClose p) = Some s' -> Inv s'.
+Proof.
+  intros I H. open_step H.
+  match goal with E : alookup p _ = Some (PDone ?i) |- _ => rename E into Hp; rename i into ids end.
+  match goal with E : mutex s = None |- _ => rename E into Hm end.
+  assert (Hold : forall q qc, alookup q (aset p (PClosed ids) (plugs s)) = Some qc ->
+                 (q = p /\ qc = PClosed ids) \/ (q <> p /\ alookup q (plugs s) = Some qc)).
+  { intros q qc. apply alookup_aset_inv. }
+  dI I. constructor; fields; try assumption.
+  - intros W q qc Hq. destruct (Hold q qc Hq) as [[-> ->]|[Hne Hq']]; [reflexivity|eauto].
+  - intros a b ac bc Ha Hb Hha Hhb.
+    destruct (Hold a ac Ha) as [[-> ->]|[Hna Ha']]; [discriminate|].
+    destruct (Hold b bc Hb) as [[-> ->]|[Hnb Hb']]; [discriminate|]. eauto.
+  - intros g E. discriminate.
+  - intros g c to rem Hg. pose proof (Imu2 _ _ _ _ Hg). congruence.
+  - intros q ids' [Hq|Hq]; destruct (Hold _ _ Hq) as [[-> E]|[Hne Hq']]; try discriminate; eauto.
+  - intros q. rewrite remove_s_In, Iactive. split.
+    + intros [[qc [Hq Ha]] Hne]. exists qc. split; [|exact Ha]. rewrite alookup_aset_other; [exact Hq|]. congruence.
+    + intros [qc [Hq Ha]]. destruct (Hold q qc Hq) as [[-> ->]|[Hne Hq']]; [discriminate|]. split; [eauto|congruence].
+  - apply remove_s_NoDup. assumption.
+  - intros q qc c Hq Hc. destruct (Hold q qc Hq) as [[-> ->]|[Hne Hq']]; [|eauto].
+    apply (Isnap p (PDone ids) c Hp). exact Hc.
+  - intros q qc c Hin Hq Hc Hnc. apply remove_s_In in Hin. destruct Hin as [Hin Hne].
+    destruct (Hold q qc Hq) as [[-> ->]|[_ Hq']]; [congruence|eauto].
+  - intros q c Hr. destruct (Irecv q c Hr) as [[pc [Hq He]] Hu]. split; [|exact Hu].
+    destruct (String.eqb_spec q p) as [->|Hne].
+    + exists (PClosed ids). rewrite alookup_aset_same. auto.
+    + exists pc. rewrite alookup_aset_other by assumption. auto.
+  - intros g c to rem Hg. pose proof (Imu2 _ _ _ _ Hg). congruence.
+  - intros g c to Hg. destruct (Ied _ _ _ Hg) as (A1 & A2 & A3 & A4). split; [|split; [exact A2|split; [exact A3|]]].
+    + intros q Hq. apply remove_s_In in Hq. apply A1. tauto.
+    + intros q Hq. apply remove_s_In in Hq. apply A4. tauto.
+  - intros W. destruct (Iwrh W) as (q & qc & Hq & Hh). exists q, qc. split; [|exact Hh].
+    rewrite alookup_aset_other; [exact Hq|]. intros ->. rewrite Hp in Hq. inversion Hq; subst. discriminate.
+  - rewrite aset_keys_present by congruence. assumption.
+  - intros z [->|Hz]; [exists ids; apply alookup_aset_same|].
+    destruct (Izomb z Hz) as [ids' Hq]. exists ids'. rewrite alookup_aset_other; [exact Hq|]. intros ->. congruence.
+Qed.
+
 (* a repeated Unblock of a released block changes nothing *)
 Lemma step_inv_greleaseagain s g s' : Inv s -> step s (AGReleaseAgain g) = Some s' -> Inv s'.
 Proof. intros I H. open_step H. exact I. Qed.
@@ -571,6 +635,7 @@ Proof.
   - apply step_inv_pfail.
   - apply step_inv_pactivate.
   - apply step_inv_prelease.
+  - apply step_inv_pclose.
   - apply step_inv_gacquire.
   - apply step_inv_gbegin.
   - apply step_inv_gdeliver.
@@ -648,8 +713,15 @@ Proof.
 Qed.
 
 (* only registered plugins are ever handed a creation request, and only for known containers *)
-Theorem recv_only_registered s p c : reachable s -> In (p, c) (recv s) -> In p (active s) /\ In c (used s).
-Proof. intros R. apply (i_recv s (reachable_inv s R)). Qed.
+Theorem recv_only_registered s p c : reachable s -> In (p, c) (recv s) ->
+  (In p (active s) \/ exists ids, alookup p (plugs s) = Some (PClosed ids)) /\ In c (used s).
+Proof.
+  intros R Hr. pose proof (reachable_inv s R) as I. destruct (i_recv s I p c Hr) as [[pc [Hp He]] Hu].
+  split; [|exact Hu]. destruct pc; try discriminate.
+  - left. apply (i_active s I). eexists. split; [exact Hp|reflexivity].
+  - left. apply (i_active s I). eexists. split; [exact Hp|reflexivity].
+  - right. eexists. exact Hp.
+Qed.
 
 (* the boolean predicate evaluated on the implementation's observations *)
 Lemma creates_of_In p c rc : In c (creates_of p rc) <-> In (p, c) rc.
@@ -863,4 +935,171 @@ Proof.
   destruct (lock_invariant s R) as (_ & _ & _ & _ & Hb). destruct (Hb h Hh) as [_ Hr].
   split; [intros ->; contradiction|]. split; [exact Hh|]. split; [reflexivity|]. split; [exact Hr|].
   apply blocked_while_held; assumption.
+Qed.
+
+(* ---------------- failing registrations (syncFn returns an error) ---------------- *)
+Lemma reachable_step s a s' : reachable s -> step s a = Some s' -> reachable s'.
+Proof.
+  intros [l H] E. exists (l ++ [a]). rewrite (steps_app l init s _ H). cbn [steps]. rewrite E. reflexivity.
+Qed.
+
+Lemma reachable_steps l : forall s s', reachable s -> steps s l = Some s' -> reachable s'.
+Proof.
+  induction l as [|a r IH]; cbn [steps]; intros s s' R H.
+  - inversion H; subst. exact R.
+  - destruct (step s a) as [s1|] eqn:E; [|discriminate]. eapply IH; [|exact H]. eapply reachable_step; eauto.
+Qed.
+
+Lemma exclusive_free s p pc : Inv s -> alookup p (plugs s) = Some pc -> holder pc = true ->
+  writer s = true /\ gors s = [] /\ readers s = 0 /\ mutex s = None.
+Proof.
+  intros I Hp Hh. pose proof (writer_of_holder s p pc I Hp Hh) as W. pose proof (i_wr s I W) as G.
+  assert (Hr : readers s = 0) by (rewrite (i_readers s I), G; reflexivity).
+  destruct (no_reader_free s I Hr) as [_ M]. auto.
+Qed.
+
+(* whatever makes the synchronisation fail — before or after the runtime read its store —, the
+   exclusive section is given up, the plugin is not and never will be active, blocks can be taken
+   again and every waiting registration can run to completion *)
+Theorem failed_registration_frees_section s p : reachable s ->
+  (alookup p (plugs s) = Some PHoldW \/ exists ids, alookup p (plugs s) = Some (PSnapshot ids)) ->
+  exists s', step s (APFail p) = Some s' /\ reachable s' /\ writer s' = false /\ readers s' = 0 /\
+    alookup p (plugs s') = Some PFailed /\ ~ In p (active s') /\ active s' = active s /\ store s' = store s /\
+    (forall g, exists s'', step s' (AGAcquire g) = Some s'') /\
+    (forall q, alookup q (plugs s') = Some PWaitW ->
+       exists s'', steps s' [APAcquire q; APSnapshot q; APActivate q; APRelease q] = Some s'' /\ In q (active s'')).
+Proof.
+  intros R Hp. pose proof (reachable_inv s R) as I.
+  assert (Hx : exists pc, alookup p (plugs s) = Some pc /\ holder pc = true /\ is_active_pc pc = false /\
+                          step s (APFail p) = Some (set_writer (set_plug s p PFailed) false)).
+  { destruct Hp as [Hp|[ids Hp]]; eexists; (split; [exact Hp|]); (split; [reflexivity|]); (split; [reflexivity|]);
+      unfold step; rewrite Hp; reflexivity. }
+  destruct Hx as (pc & Hpc & Hh & Hna & E).
+  destruct (exclusive_free s p pc I Hpc Hh) as (W & G & Hr & M).
+  exists (set_writer (set_plug s p PFailed) false). split; [exact E|].
+  assert (R' : reachable (set_writer (set_plug s p PFailed) false)) by (eapply reachable_step; eauto).
+  split; [exact R'|]. fields. split; [reflexivity|]. split; [exact Hr|].
+  split; [apply alookup_aset_same|]. split.
+  - intros Hi. apply (i_active s I) in Hi. destruct Hi as [pc' [Hp' Ha]]. congruence.
+  - split; [reflexivity|]. split; [reflexivity|]. split.
+    + intros g. unfold step. fields. rewrite G. cbn [alookup]. eexists. reflexivity.
+    + intros q Hq. destruct (registration_completes _ q R' Hr eq_refl Hq) as (s'' & H1 & H2 & _).
+      exists s''. auto.
+Qed.
+
+Theorem failed_never_served s p : reachable s -> alookup p (plugs s) = Some PFailed ->
+  ~ in_exclusive s p /\ ~ In p (active s) /\ (forall c, ~ In (p, c) (recv s)) /\
+  (forall a, a <> APArrive p -> In a [APAcquire p; APSnapshot p; APFail p; APActivate p; APRelease p; APClose p] -> step s a = None).
+Proof.
+  intros R Hp. pose proof (reachable_inv s R) as I. split; [|split; [|split]].
+  - intros (pc & Hp' & Hh). rewrite Hp in Hp'. inversion Hp'; subst. discriminate.
+  - intros Hi. apply (i_active s I) in Hi. destruct Hi as [pc [Hp' Ha]]. rewrite Hp in Hp'. inversion Hp'; subst. discriminate.
+  - intros c Hr. destruct (i_recv s I p c Hr) as [[pc [Hp' He]] _]. rewrite Hp in Hp'. inversion Hp'; subst. discriminate.
+  - intros a _ Ha. cbn [In] in Ha. destruct Ha as [<-|[<-|[<-|[<-|[<-|[<-|[]]]]]]]; unfold step; rewrite Hp; reflexivity.
+Qed.
+
+(* the holder of the exclusive section never has to wait for anybody: its success path is enabled
+   step by step (the failure path is failed_registration_frees_section) *)
+Theorem section_always_released s q : reachable s -> in_exclusive s q ->
+  exists l s', incl l [APSnapshot q; APActivate q; APRelease q] /\ steps s l = Some s' /\
+               writer s' = false /\ In q (active s').
+Proof.
+  intros R (pc & Hq & Hh). pose proof (reachable_inv s R) as I.
+  destruct (exclusive_free s q pc I Hq Hh) as (W & G & Hr & M).
+  destruct pc; try discriminate.
+  - exists [APSnapshot q; APActivate q; APRelease q]. eexists. split; [apply incl_refl|].
+    cbn [steps]. unfold step at 1. rewrite Hq.
+    unfold step at 1. fields. rewrite alookup_aset_same, M.
+    unfold step at 1. fields. rewrite alookup_aset_same.
+    split; [reflexivity|]. fields. split; [reflexivity|]. apply in_app_iff. right. left. reflexivity.
+  - exists [APActivate q; APRelease q]. eexists. split; [intros a [<-|[<-|[]]]; cbn; auto|].
+    cbn [steps]. unfold step at 1. rewrite Hq, M.
+    unfold step at 1. fields. rewrite alookup_aset_same.
+    split; [reflexivity|]. fields. split; [reflexivity|]. apply in_app_iff. right. left. reflexivity.
+  - exists [APRelease q]. eexists. split; [intros a [<-|[]]; cbn; auto|].
+    cbn [steps]. unfold step at 1. rewrite Hq.
+    split; [reflexivity|]. fields. split; [reflexivity|]. apply (i_active s I). eexists. split; [exact Hq|reflexivity].
+Qed.
+
+(* for ALL interleavings, with any number of failing registrations among the successful ones *)
+Theorem failing_registrations_harmless l s : steps init l = Some s ->
+  (forall p, alookup p (plugs s) = Some PFailed ->
+     ~ in_exclusive s p /\ ~ In p (active s) /\ forall c, ~ In (p, c) (recv s)) /\
+  (writer s = true <-> exists p, in_exclusive s p) /\
+  exactly_once_b (obs_of_state s) = true /\
+  (readers s = 0 -> forall p, alookup p (plugs s) = Some PWaitW ->
+     (exists s', step s (APAcquire p) = Some s') \/
+     (exists q a s', q <> p /\ in_exclusive s q /\ In a [APSnapshot q; APActivate q; APRelease q] /\ step s a = Some s')) /\
+  (readers s = 0 -> writer s = false -> forall p, alookup p (plugs s) = Some PWaitW ->
+     exists s', steps s [APAcquire p; APSnapshot p; APActivate p; APRelease p] = Some s' /\ In p (active s')).
+Proof.
+  intros H. assert (R : reachable s) by (exists l; exact H). split; [|split; [|split; [|split]]].
+  - intros p Hp. destruct (failed_never_served s p R Hp) as (A & B & C & _). auto.
+  - apply (lock_invariant s R).
+  - apply exactly_once_obs. exact R.
+  - intros Hr p Hp. apply release_enables; assumption.
+  - intros Hr W p Hp. destruct (registration_completes s p R Hr W Hp) as (s' & H1 & H2 & _). exists s'. auto.
+Qed.
+
+(* ---------------- closed instances and re-registration under the same name ---------------- *)
+(* a closed instance is on r.plugins (listed) but not live: it is never handed anything again *)
+Theorem closed_instance_listed_not_live s z : reachable s -> In z (zombies s) ->
+  (exists ids, alookup z (plugs s) = Some (PClosed ids)) /\ ~ In z (active s) /\ In z (listed s).
+Proof.
+  intros R Hz. pose proof (reachable_inv s R) as I. destruct (i_zomb s I z Hz) as [ids Hq].
+  split; [exists ids; exact Hq|]. split.
+  - intros Hi. apply (i_active s I) in Hi. destruct Hi as [pc [Hp Ha]]. rewrite Hq in Hp. inversion Hp; subst. discriminate.
+  - unfold listed. apply in_app_iff. right. exact Hz.
+Qed.
+
+(* a fresh instance [p] is activated while a closed instance [z] is still listed — WHATEVER their names, in
+   particular when name_of p = name_of z: the clean-up that runs at the activation removes the closed instance
+   and keeps the fresh one, which is then active *)
+Theorem reregistration_keeps_fresh_instance s p z ids : reachable s -> In z (zombies s) ->
+  alookup p (plugs s) = Some (PSnapshot ids) ->
+  exists s', step s (APActivate p) = Some s' /\ reachable s' /\
+             In p (active s') /\ In p (listed s') /\ ~ In z (listed s') /\ zombies s' = [] /\ z <> p.
+Proof.
+  intros R Hz Hp. pose proof (reachable_inv s R) as I.
+  destruct (exclusive_free s p _ I Hp eq_refl) as (W & G & Hr & M).
+  destruct (closed_instance_listed_not_live s z R Hz) as ([ids' Hq] & Hna & _).
+  assert (E : step s (APActivate p) = Some
+    {| readers := readers s; writer := writer s; mutex := None; store := store s; active := active s ++ [p];
+       plugs := aset p (PActivated ids) (plugs s); gors := gors s; recv := recv s; used := used s; zombies := [] |}).
+  { unfold step. rewrite Hp, M. reflexivity. }
+  eexists. split; [exact E|]. split; [eapply reachable_step; eauto|]. unfold listed. fields.
+  assert (Hne : z <> p) by (intros ->; congruence).
+  split; [apply in_app_iff; right; left; reflexivity|].
+  split; [rewrite app_nil_r; apply in_app_iff; right; left; reflexivity|].
+  split; [|split; [reflexivity|exact Hne]].
+  rewrite app_nil_r, in_app_iff. intros [Hi|[Hi|[]]]; [contradiction|congruence].
+Qed.
+
+(* ... and from then on it learns of every container exactly once (this is C08_exactly_once for the
+   instance p; stated for the record: the earlier instance of the same name plays no role) *)
+Theorem reregistered_instance_exactly_once s p c : reachable s -> In p (active s) -> In c (store s) ->
+  (In c (snapshot_of s p) /\ ~ In (p, c) (recv s)) \/ (~ In c (snapshot_of s p) /\ In (p, c) (recv s)).
+Proof. intros R Hp Hc. apply (exactly_once s p c R Hp Hc). Qed.
+
+(* a log that ends quiescent: every plugin instance that connected is registered, or failed, or closed *)
+Lemma alookup_In_pair {V} k (v : V) l : alookup k l = Some v -> In (k, v) l.
+Proof.
+  induction l as [|[k' v'] r IH]; cbn [alookup]; intros H; [discriminate|].
+  destruct (String.eqb_spec k k') as [->|Hne]; [inversion H; left; reflexivity|right; apply IH; exact H].
+Qed.
+
+Theorem accepted_all_settled tr : accepts tr = true ->
+  exists s, replay tr = inl s /\ readers s = 0 /\ writer s = false /\
+    forall p pc, alookup p (plugs s) = Some pc ->
+      In p (active s) \/ pc = PFailed \/ exists ids, pc = PClosed ids.
+Proof.
+  unfold accepts. destruct (replay tr) as [s|n] eqn:E; [|discriminate]. intros Q.
+  exists s. split; [reflexivity|]. pose proof (reachable_inv s (replay_reachable tr s E)) as I.
+  unfold quiescent in Q. repeat (apply andb_prop in Q; destruct Q as [Q ?]).
+  split; [apply Nat.eqb_eq; assumption|]. split; [apply negb_true_iff; assumption|].
+  intros p pc Hp. match goal with F : forallb _ (plugs s) = true |- _ => rewrite forallb_forall in F; specialize (F (p, pc) (alookup_In_pair p pc _ Hp)); cbn [snd] in F end.
+  destruct pc; try discriminate.
+  - left. apply (i_active s I). eexists. split; [exact Hp|reflexivity].
+  - right. right. eexists. reflexivity.
+  - right. left. reflexivity.
 Qed.
